@@ -82,6 +82,7 @@ type Result struct {
 	States     []string
 	Desc       string // optional description for samples
 	Skip       bool   // not an execution of its own (duplicate pruned by the scheduler): not counted
+	CutAt      int    // >0: explore alternatives only at the first CutAt positions of this execution (used for executions that ran into the step horizon: their tail is a loop, and timing-dependent)
 }
 
 // Violation record written to the worker output.
@@ -542,6 +543,11 @@ func (r *Runner) DFS(caseID string, maxDev int, body func(x *X) Result) {
 		ar, dv = x.Arity, x.IsDev
 		if mine, _ := r.ownsSubtree(x.Choices); mine {
 			r.record(caseID, x, res, nil)
+		}
+		if res.CutAt > 0 && res.CutAt < len(x.Choices) {
+			x.Choices, x.Arity, x.IsDev = x.Choices[:res.CutAt], x.Arity[:res.CutAt], x.IsDev[:res.CutAt]
+			ar, dv = x.Arity, x.IsDev
+			r.sum.Extra["executions_cut_at_horizon"]++
 		}
 		nxt, ok := step(x.Choices, x.Arity, x.IsDev, maxDev)
 		if !ok {
